@@ -33,7 +33,7 @@ class Untranslatable(Exception):
 
 def lty(t):
     if isinstance(t, str):
-        return {"Int": "Int", "Nat": "Nat", "Bool": "Bool", "Str": "String", "Rat": "Rat", "Float": "Float", "Unit": "Unit", "Stream": "(List Tok)", "OV": "OV", "Tok": "Tok"}.get(t, t)
+        return {"Int": "Int", "Nat": "Nat", "Bool": "Bool", "Str": "String", "Rat": "Rat", "Float": "Float", "Unit": "Unit", "Stream": "(List Tok)", "OV": "OV", "Tok": "Tok", "ZeroDef": "Nat"}.get(t, t)
     if t[0] == "List":
         return "(List %s)" % lty(t[1])
     if t[0] == "Opt":
@@ -48,6 +48,10 @@ def lty(t):
         return "(" + " × ".join(lty(x) for x in t[1:]) + ")"
     if t[0] == "AssocL":
         return "(List (%s × %s))" % (lty(t[1]), lty(t[2]))
+    if t[0] == "Set":
+        return "(List %s)" % lty(t[1])
+    if t[0] == "MultiL":
+        return "(List (%s × (List %s)))" % (lty(t[1]), lty(t[2]))
     raise Untranslatable("type %r" % (t,))
 
 
@@ -142,10 +146,14 @@ class Proc(object):
             return "(if %s then (1 : Int) else 0)" % text
         if ty == "EmptyList" and isinstance(want, tuple) and want[0] == "List":
             return "[]"
+        if ty == "EmptySet" and isinstance(want, tuple) and want[0] == "Set":
+            return "[]"
+        if ty == "EmptyDict" and isinstance(want, tuple) and want[0] in ("AssocL", "MultiL"):
+            return "[]"
         if isinstance(ty, tuple) and ty[0] == "Prod" and isinstance(want, tuple) and want[0] == "Prod" and len(ty) == len(want):
             # componentwise coercion needs the components: only done for literal tuples (see expr Tuple) - reaching here is a mismatch
             pass
-        raise Untranslatable("cannot use a %s where a %s is needed: %s" % (lty(ty) if ty not in ("None", "EmptyList") else ty, lty(want), text[:50]))
+        raise Untranslatable("cannot use a %s where a %s is needed: %s" % (lty(ty) if ty not in ("None", "EmptyList", "EmptySet", "EmptyDict") else ty, lty(want), text[:50]))
 
     # ------------------------------------------------------------------------------------------------------------- expressions
     def expr(self, e, env):
@@ -194,6 +202,12 @@ class Proc(object):
                         return ("(%s %s %s)" % (lname, recv, self.coerce(*self.expr(e.slice, env), kty)), vty)
             # a local association list (a dict built by the function itself): the most recent binding of the key
             bt, bty = self.expr(e.value, env)
+            if isinstance(bty, tuple) and bty[0] == "Rec":
+                m = self.spec.get("methods", {}).get((bty[1], "__getitem__"))
+                if m:
+                    return ("(%s %s %s)" % (m[0], bt, self.coerce(*self.expr(e.slice, env), m[1][0])), m[2])
+            if isinstance(bty, tuple) and bty[0] == "AssocL" and self.seg(e) in env.facts:
+                return env.facts[self.seg(e)]
             if isinstance(bty, tuple) and bty[0] == "AssocL":
                 raise Untranslatable("plain subscript of a local dictionary (may raise KeyError): use .get")
             if isinstance(bty, tuple) and bty[0] == "List":
@@ -294,7 +308,10 @@ class Proc(object):
         if isinstance(op, (ast.In, ast.NotIn)):
             x, xty = self.expr(a, env)
             c, cty = self.expr(b, env)
-            if not (isinstance(cty, tuple) and cty[0] == "List" and cty[1] == xty):
+            if isinstance(cty, tuple) and cty[0] == "AssocL" and cty[1] == xty:
+                t = "(%s.any fun e => e.1 == %s)" % (c, x)
+                return (t if isinstance(op, ast.In) else "(!%s)" % t, "Bool")
+            if not (isinstance(cty, tuple) and cty[0] in ("List", "Set") and cty[1] == xty):
                 raise Untranslatable("membership in %s" % (lty(cty) if cty not in ("None", "EmptyList") else cty))
             t = "(%s.contains %s)" % (c, x)
             return (t if isinstance(op, ast.In) else "(!%s)" % t, "Bool")
@@ -327,6 +344,9 @@ class Proc(object):
         raise Untranslatable("operands of types %s and %s" % (xty, yty))
 
     def binop(self, e, env):
+        if isinstance(e.op, ast.Mod) and self.const_str(e.left, env) is not None:
+            # a formatted piece used as a VALUE (collected in a list and joined later): a token
+            return (self.fmt_tok(e, env), "Tok")
         x, xty = self.expr(e.left, env)
         y, yty = self.expr(e.right, env)
         if isinstance(e.op, ast.Mult) and "OV" in (xty, yty):
@@ -385,7 +405,19 @@ class Proc(object):
                 raise Untranslatable("arity of %s" % fname)
             return ("(%s %s)" % (lname, " ".join(args)), rty)
         if (self.spec["file"], fname) in self.procs:
-            p = self.procs[(self.spec["file"], fname)]
+            p0 = self.procs[(self.spec["file"], fname)]
+            cands = [p0] + list(p0.get("variants", []))
+            last = None
+            for p in cands:
+                try:
+                    return self.call_proc(p, fname, f, e, env)
+                except Untranslatable as ex:
+                    last = ex
+            raise last
+        return self.call_other(fname, f, e, env)
+
+    def call_proc(self, p, fname, f, e, env):
+        if True:
             actual = list(e.args)
             args = []
             for n, t in p["params"]:
@@ -415,6 +447,8 @@ class Proc(object):
                     raise Untranslatable("%s needs the operation %s, which the caller does not declare" % (fname, n))
             imp = " ".join(n for n, _ in p.get("implicit", []))
             return ("(%s %s %s)" % (p["name"], imp, " ".join(args)), p["ret"])
+
+    def call_other(self, fname, f, e, env):
         # a call of a callable VARIABLE (a record standing for a Python callable)
         if isinstance(f, ast.Name) and f.id in env.vars and isinstance(env.vars[f.id][1], tuple) and env.vars[f.id][1][0] == "Rec":
             m = self.spec.get("methods", {}).get((env.vars[f.id][1][1], "__call__"))
@@ -451,6 +485,31 @@ class Proc(object):
                         raise Untranslatable("arity of %s.%s" % (rty[1], f.attr))
                     args = [self.coerce(*self.expr(a, env), w) for a, w in zip(e.args, argtys)]
                     return ("(%s %s %s)" % (lname, recv, " ".join(args)), rret)
+        # str methods declared as operations:  k.strip()  /  k.split("-") with a one-character constant separator
+        if isinstance(f, ast.Attribute) and f.attr in ("strip", "split", "lower"):
+            try:
+                recv, rty = self.expr(f.value, env)
+            except Untranslatable:
+                recv, rty = None, None
+            if rty == "Str":
+                m = self.spec.get("methods", {}).get(("Str", f.attr))
+                if m and f.attr in ("strip", "lower") and not e.args:
+                    return ("(%s %s)" % (m[0], recv), "Str")
+                if f.attr == "split" and len(e.args) == 1 and isinstance(e.args[0], ast.Constant) and isinstance(e.args[0].value, str) and len(e.args[0].value) == 1:
+                    return ("(pySplit1 %s '%s')" % (recv, e.args[0].value), ("List", "Str"))
+        if fname in self.spec.get("rec_constructors", {}):
+            rec, argtys = self.spec["rec_constructors"][fname]
+            if len(e.args) != len(argtys):
+                raise Untranslatable("arity of %s" % fname)
+            parts = [self.coerce(*self.expr(a, env), w) for a, w in zip(e.args, argtys)]
+            return ("(%s.mk %s)" % (rec, " ".join(parts)), ("Rec", rec))
+        if fname in self.spec.get("constructors", {}):
+            # a namedtuple constructor: the tuple of its arguments
+            want = self.spec["constructors"][fname]
+            if len(e.args) != len(want) - 1:
+                raise Untranslatable("arity of %s" % fname)
+            parts = [self.coerce(*self.expr(a, env), w) for a, w in zip(e.args, want[1:])]
+            return ("(" + ", ".join(parts) + ")", want)
         # dictionary look-up with default:  TABLE.get(key, default)
         if isinstance(f, ast.Attribute) and f.attr == "get" and len(e.args) == 2:
             k = self.seg(f.value)
@@ -477,6 +536,11 @@ class Proc(object):
             if isinstance(dflt, ast.Name) and dflt.id in self.spec.get("absent_objects", {}):
                 return ("(lookupLast %s %s)" % (d, key), ("Opt", dty[2]))
             raise Untranslatable("default of .get is not a declared absent-object")
+        if isinstance(f, ast.Attribute) and f.attr == "items" and not e.args and isinstance(f.value, ast.Name) and f.value.id in env.vars \
+                and isinstance(env.vars[f.value.id][1], tuple) and env.vars[f.value.id][1][0] == "MultiL":
+            # a dictionary of lists built with setdefault(..).append(..): one entry per key, in order of first insertion
+            d, dty = env.vars[f.value.id]
+            return (d, ("List", ("Prod", dty[1], ("List", dty[2]))))
         if fname == "StringIO" and not e.args:
             return ("([] : List Tok)", "Stream")
         if isinstance(f, ast.Attribute) and f.attr == "getvalue" and not e.args:
@@ -493,10 +557,23 @@ class Proc(object):
             return ("(intRange %s %s)" % (lo, hi), ("List", "Int"))
         if fname == "tuple" and len(e.args) == 1:
             return self.expr(e.args[0], env)
+        if fname == "set" and not e.args:
+            # a set that the function only adds to, tests membership of and sorts: the list of its distinct members in order of first insertion
+            # (`.add` -> setAdd); iterating over it directly is refused (Python leaves that order unspecified)
+            return ("[]", "EmptySet")
+        if fname == "reversed" and len(e.args) == 1:
+            t, ty = self.expr(e.args[0], env)
+            if isinstance(ty, tuple) and ty[0] == "Prod" and len(ty) == 3:
+                return ("(%s.2, %s.1)" % (t, t), ("Prod", ty[2], ty[1]))
+        if fname == "sorted" and len(e.args) == 1 and not e.keywords:
+            t, ty = self.expr(e.args[0], env)
+            if isinstance(ty, tuple) and ty[0] in ("List", "Set") and ty[1] in ("Str", ("List", "Str")):
+                return ("(stableSortBy (fun a b => decide (a ≤ b)) %s)" % t, ("List", ty[1]))
+            raise Untranslatable("sorted of %s" % (ty,))
         if fname == "list" and len(e.args) == 1:
             t, ty = self.expr(e.args[0], env)
-            if isinstance(ty, tuple) and ty[0] == "List":
-                return (t, ty)             # a copy of an immutable list is the list
+            if isinstance(ty, tuple) and ty[0] in ("List", "Prod"):
+                return (t, ty)             # a copy of an immutable list (or the items of a tuple) is the value itself
         if fname == "len" and len(e.args) == 1:
             t, ty = self.expr(e.args[0], env)
             if isinstance(ty, tuple) and ty[0] == "List":
@@ -562,10 +639,16 @@ class Proc(object):
         if isinstance(e, ast.BinOp) and isinstance(e.op, ast.Mult) and isinstance(e.right, ast.Constant) and isinstance(e.right.value, int):
             a = self.const_str(e.left, env)
             return None if a is None else a * e.right.value
+        if isinstance(e, ast.BinOp) and isinstance(e.op, ast.Mult) and isinstance(e.left, ast.Constant) and isinstance(e.left.value, int) and not isinstance(e.left.value, bool):
+            a = self.const_str(e.right, env)
+            return None if a is None else e.left.value * a
         return None
 
     def ov(self, e, env):
         """an expression used as a format argument -> OV text"""
+        c = self.const_str(e, env)
+        if c is not None:
+            return "(OV.str %s)" % lstr(c)
         t, ty = self.expr(e, env)
         if ty == "OV":
             return t
@@ -590,6 +673,9 @@ class Proc(object):
             if fmt is None:
                 raise Untranslatable("format string is not a constant")
             r = e.right
+            if isinstance(r, ast.Subscript) and isinstance(r.value, ast.Tuple) and isinstance(r.slice, ast.Slice) and r.slice.lower is None and r.slice.step is None \
+                    and isinstance(r.slice.upper, ast.Constant) and isinstance(r.slice.upper.value, int) and r.slice.upper.value >= len(r.value.elts):
+                r = r.value           # (a, b)[:100] - a slice of the argument TUPLE that keeps all of it (`%` binds tighter than the subscript's operand suggests)
             if isinstance(r, ast.Dict) or (isinstance(r, ast.Name) and r.id in getattr(self, "dictconsts", {})):
                 d = {}
                 if isinstance(r, ast.Name):
@@ -662,15 +748,43 @@ class Proc(object):
             if isinstance(xty, tuple) and xty[0] == "List":
                 vt, vty = self.expr(c.args[0], env)
                 return (f.value.id, "(%s ++ [%s])" % (xt, self.coerce(vt, vty, xty[1])), xty, False)
+        if isinstance(f, ast.Attribute) and f.attr == "add" and isinstance(f.value, ast.Name) and len(c.args) == 1 and not c.keywords:
+            xt, xty = self.expr(f.value, env)
+            if isinstance(xty, tuple) and xty[0] == "Set":
+                vt, vty = self.expr(c.args[0], env)
+                return (f.value.id, "(setAdd %s %s)" % (xt, self.coerce(vt, vty, xty[1])), xty, False)
+        # D.setdefault(K, []).append(V): the list kept under K (created empty when K is new, at the end of the dictionary's order) gains V
+        if isinstance(f, ast.Attribute) and f.attr == "append" and len(c.args) == 1 and isinstance(f.value, ast.Call) and isinstance(f.value.func, ast.Attribute) \
+                and f.value.func.attr == "setdefault" and isinstance(f.value.func.value, ast.Name) and len(f.value.args) == 2 \
+                and isinstance(f.value.args[1], ast.List) and not f.value.args[1].elts:
+            d = f.value.func.value
+            dt, dty = self.expr(d, env)
+            if isinstance(dty, tuple) and dty[0] == "MultiL":
+                key = self.coerce(*self.expr(f.value.args[0], env), dty[1])
+                val = self.coerce(*self.expr(c.args[0], env), dty[2])
+                return (d.id, "(multiAppend %s %s %s)" % (dt, key, val), dty, False)
+        # a method that changes the object it is called on, declared as an operation returning the new object:  cp.remove_option(s, k)
+        if isinstance(f, ast.Attribute) and isinstance(f.value, ast.Name) and f.value.id in env.vars and not c.keywords:
+            xt, xty = env.vars[f.value.id]
+            if isinstance(xty, tuple) and xty[0] == "Rec":
+                m = self.spec.get("mut_methods", {}).get((xty[1], f.attr))
+                if m:
+                    lname, argtys = m
+                    if len(argtys) != len(c.args):
+                        raise Untranslatable("arity of %s.%s" % (xty[1], f.attr))
+                    args = [self.coerce(*self.expr(a, env), w) for a, w in zip(c.args, argtys)]
+                    return (f.value.id, "(%s %s %s)" % (lname, xt, " ".join(args)), xty, False)
         # a function-typed parameter / opaque writer that writes into one of its arguments
         io = self.spec.get("inout_calls", {})
-        nm = f.id if isinstance(f, ast.Name) else None
+        nm = f.id if isinstance(f, ast.Name) else (f.attr if isinstance(f, ast.Attribute) and isinstance(f.value, ast.Name) and f.value.id in ("self", "cls") else None)
         if nm in io:
             idx = io[nm]
             if not isinstance(c.args[idx], ast.Name):
                 raise Untranslatable("stream argument of %s is not a variable" % nm)
             vt, vty = self.call(c, env)
-            return (c.args[idx].id, vt, "Stream", False)
+            if isinstance(vty, tuple) and vty[0] == "Except":
+                return (c.args[idx].id, vt, vty[2], True)
+            return (c.args[idx].id, vt, vty, False)
         # a writer called for its effect on a stream argument
         fname = f.id if isinstance(f, ast.Name) else (f.attr if isinstance(f, ast.Attribute) and isinstance(f.value, ast.Name) and f.value.id in ("self", "cls") else None)
         p = self.procs.get((self.spec["file"], fname))
@@ -702,6 +816,15 @@ class Proc(object):
                     return self.cond(e.values[i], en, kt, kf)
                 return self.cond(e.values[i], en, kt, lambda en2: go(i + 1, en2))
             return go(0, env)
+        # key in d / key not in d  on a local dictionary: the branch where it is present knows d[key]
+        if isinstance(e, ast.Compare) and len(e.ops) == 1 and isinstance(e.ops[0], (ast.In, ast.NotIn)) and isinstance(e.comparators[0], ast.Name) \
+                and e.comparators[0].id in env.vars and isinstance(env.vars[e.comparators[0].id][1], tuple) and env.vars[e.comparators[0].id][1][0] == "AssocL":
+            d, dty = env.vars[e.comparators[0].id]
+            key = self.coerce(*self.expr(e.left, env), dty[1])
+            n = env.fresh("found")
+            present = env.fact("%s[%s]" % (e.comparators[0].id, self.seg(e.left)), n, dty[2])
+            a, b = (kt(present), kf(env)) if isinstance(e.ops[0], ast.In) else (kf(present), kt(env))
+            return "(match (lookupLast %s %s) with\n| some %s => %s\n| none => %s)" % (d, key, n, a, b)
         # x is None / x is not None
         if isinstance(e, ast.Compare) and len(e.ops) == 1 and isinstance(e.ops[0], (ast.Is, ast.IsNot)) \
                 and isinstance(e.comparators[0], ast.Constant) and e.comparators[0].value is None and isinstance(e.left, ast.Name):
@@ -747,7 +870,7 @@ class Proc(object):
             return self.terminates(s.body) and self.terminates(s.orelse)
         return False
 
-    def assigns(self, stmts):
+    def assigns(self, stmts, via_args=True):
         out = set()
         for s in stmts:
             for n in ast.walk(s):
@@ -756,7 +879,7 @@ class Proc(object):
                     c = n.value
                     if isinstance(c.func, ast.Attribute) and isinstance(c.func.value, ast.Name):
                         out.add(c.func.value.id)
-                    for a in list(c.args) + [kw.value for kw in c.keywords]:
+                    for a in (list(c.args) + [kw.value for kw in c.keywords]) if via_args else []:
                         if isinstance(a, ast.Name):
                             out.add(a.id)
                 if isinstance(n, (ast.Assign, ast.AugAssign)):
@@ -790,10 +913,30 @@ class Proc(object):
             if isinstance(ty, tuple) and ty[0] == "Except" and ty == self.ret:
                 return t
             return self.wrap_ret(t, ty)
+        if isinstance(s, ast.Assign) and len(s.targets) == 1 and isinstance(s.targets[0], ast.Name) and rest and isinstance(rest[0], ast.Raise) \
+                and rest[0].exc is not None and any(isinstance(n, ast.Name) and n.id == s.targets[0].id for n in ast.walk(rest[0].exc)) and self.ret[0] == "Except":
+            # msg = "...".format(..) ; raise X(msg): the message text identifies the error
+            text = ast.get_source_segment(self.src, s.value) or ""
+            for sub, tag in self.spec.get("raises", []):
+                if sub in text:
+                    return "(.error %s)" % tag
         if isinstance(s, ast.Raise):
             if self.ret[0] != "Except":
                 raise Untranslatable("raise in a function declared not to raise")
             return "(.error %s)" % self.err_tag(s.exc)
+        if isinstance(s, ast.FunctionDef) and s.name in self.spec.get("closures", {}):
+            # def g(r): return obj.method(r)   - g stands for obj, called through that method (the variant of the callee declared for obj's type)
+            obj, meth = self.spec["closures"][s.name]
+            ok = len(s.args.args) == 1 and len(s.body) == 1 and isinstance(s.body[0], ast.Return) and s.body[0].value is not None \
+                and ast.unparse(s.body[0].value).replace(" ", "") == "%s.%s(%s)" % (obj, meth, s.args.args[0].arg)
+            if not ok or obj not in env.vars:
+                raise Untranslatable("%s is not `return %s.%s(arg)`" % (s.name, obj, meth))
+            return self.block(rest, env.bind(s.name, env.vars[obj][0], env.vars[obj][1]), k)
+        if isinstance(s, ast.FunctionDef) and s.name in self.spec.get("zero_defs", []):
+            ok = len(s.body) == 1 and isinstance(s.body[0], ast.Return) and isinstance(s.body[0].value, ast.Constant) and s.body[0].value.value == 0.0
+            if not ok:
+                raise Untranslatable("%s is not `return 0.0`" % s.name)
+            return self.block(rest, env.bind(s.name, "0", "ZeroDef"), k)
         if isinstance(s, (ast.FunctionDef, ast.ClassDef)):
             # nested helper: translated on its own (spec["local_defs"]) or an absent-object class checked by prepare(); nothing to do here
             if s.name in self.spec.get("local_defs", {}) or s.name in [c for c, _ in self.spec.get("absent_objects", {}).values()]:
@@ -819,13 +962,24 @@ class Proc(object):
         if isinstance(s, ast.Assign) and len(s.targets) == 1 and isinstance(s.targets[0], ast.Name) and s.targets[0].id in self.spec.get("absent_objects", {}):
             return self.block(rest, env, k)          # zeroPair = ZeroPair(): the declared absent-object
         if isinstance(s, ast.Assign) and len(s.targets) == 1 and isinstance(s.targets[0], ast.Name) and isinstance(s.value, ast.Dict) and not s.value.keys \
-                and isinstance(self.spec.get("locals", {}).get(s.targets[0].id), tuple) and self.spec["locals"][s.targets[0].id][0] == "AssocL":
+                and isinstance(self.spec.get("locals", {}).get(s.targets[0].id), tuple) and self.spec["locals"][s.targets[0].id][0] in ("AssocL", "MultiL"):
             txt, en = self.assign_name(s.targets[0], "[]", self.spec["locals"][s.targets[0].id], env)
             return txt + self.block(rest, en, k)
         if isinstance(s, ast.Assign):
             if len(s.targets) != 1:
                 raise Untranslatable("multiple assignment targets")
             tgt = s.targets[0]
+            if isinstance(tgt, ast.Tuple) and all(isinstance(x, ast.Name) for x in tgt.elts) and not isinstance(s.value, ast.Tuple):
+                # a, b = xs  with xs a list: Python raises ValueError unless it has exactly that many items
+                vt, vty = self.expr(s.value, env)
+                if isinstance(vty, tuple) and vty[0] == "List" and self.spec.get("unpack_error") and self.ret[0] == "Except":
+                    names = [env.fresh(x.id) for x in tgt.elts]
+                    en = env
+                    for x, n in zip(tgt.elts, names):
+                        en = en.bind(x.id, n, vty[1])
+                        self.declared_types.setdefault(x.id, vty[1])
+                    return "(match %s with\n| [%s] => %s\n| _ => (.error %s))" % (vt, ", ".join(names), self.block(rest, en, k), self.spec["unpack_error"])
+                raise Untranslatable("unpacking of %s" % (vty,))
             if isinstance(tgt, ast.Tuple) and isinstance(s.value, ast.Tuple) and len(tgt.elts) == len(s.value.elts):
                 # a, b = x, y   (evaluate right-hand sides first)
                 vals = [self.expr(v, env) for v in s.value.elts]
@@ -908,6 +1062,24 @@ class Proc(object):
                     raise Untranslatable("call of a raising function in a function that does not raise")
                 return "(andThen %s fun _ =>\n%s)" % (vt, self.block(rest, env, k))
             raise Untranslatable("expression statement %s" % (self.seg(s.value) or "")[:50])
+        if isinstance(s, ast.Try):
+            # try: X = rec.attr[key]  except KeyError: raise ...   - the look-up declared as partial (try_subscripts): absent key -> the error
+            ok = len(s.body) == 1 and isinstance(s.body[0], ast.Assign) and len(s.body[0].targets) == 1 and isinstance(s.body[0].targets[0], ast.Name) \
+                and isinstance(s.body[0].value, ast.Subscript) and isinstance(s.body[0].value.value, ast.Attribute) and not s.orelse and not s.finalbody \
+                and len(s.handlers) == 1 and isinstance(s.handlers[0].type, ast.Name) and s.handlers[0].type.id == "KeyError" \
+                and len(s.handlers[0].body) == 1 and isinstance(s.handlers[0].body[0], ast.Raise) and self.ret[0] == "Except"
+            if not ok:
+                raise Untranslatable("try statement shape")
+            sub = s.body[0].value
+            recv, rty = self.expr(sub.value.value, env)
+            decl = self.spec.get("try_subscripts", {}).get((rty[1], sub.value.attr)) if isinstance(rty, tuple) and rty[0] == "Rec" else None
+            if not decl:
+                raise Untranslatable("try around an undeclared look-up")
+            lname, kty, vty = decl
+            key = self.coerce(*self.expr(sub.slice, env), kty)
+            n = env.fresh("found")
+            txt, en = self.assign_name(s.body[0].targets[0], n, vty, env)
+            return "(match (%s %s %s) with\n| some %s => %s%s\n| none => (.error %s))" % (lname, recv, key, n, txt, self.block(rest, en, k), self.err_tag(s.handlers[0].body[0].exc))
         if isinstance(s, ast.If):
             body_t, else_t = self.terminates(s.body), self.terminates(s.orelse)
             if rest and not (body_t and else_t):
@@ -942,14 +1114,30 @@ class Proc(object):
             declared = self.declared_types[name]
         if declared is not None:
             vt, vty = self.coerce(vt, vty, declared), declared
-        elif vty in ("None", "EmptyList"):
+        elif vty in ("None", "EmptyList", "EmptySet", "EmptyDict"):
             raise Untranslatable("type of local %s unknown (declare it)" % name)
         self.declared_types.setdefault(name, vty)
         lean = env.fresh(name.replace(".", "_"))
         return "let %s : %s := %s;\n" % (lean, lty(vty), vt), env.bind(name, lean, vty)
 
+    def loop_target(self, s, xty, inner):
+        """-> (pattern variable, environment of the body) for the loop target: a name, or a tuple of names over a list of tuples"""
+        if isinstance(s.target, ast.Name):
+            v = "x_" + s.target.id
+            return v, inner.bind(s.target.id, v, xty[1])
+        names = [t.id for t in s.target.elts]
+        ety = xty[1]
+        if not (isinstance(ety, tuple) and ety[0] == "Prod" and len(ety) - 1 == len(names)):
+            raise Untranslatable("loop target (%s) over items of type %s" % (", ".join(names), lty(ety)))
+        v = "x_" + "_".join(n.strip("_") or "u" for n in names)
+        en = inner
+        for i, n in enumerate(names):
+            proj = "%s.%s" % (v, ".".join(["2"] * i + (["1"] if i < len(names) - 1 else [])))
+            en = en.bind(n, proj, ety[1 + i])
+        return v, en
+
     def forloop(self, s, rest, env, k):
-        if s.orelse or not isinstance(s.target, ast.Name):
+        if s.orelse or not (isinstance(s.target, ast.Name) or (isinstance(s.target, ast.Tuple) and all(isinstance(t, ast.Name) for t in s.target.elts))):
             raise Untranslatable("for loop shape")
         xs, xty = self.expr(s.iter, env)
         if not (isinstance(xty, tuple) and xty[0] == "List"):
@@ -969,13 +1157,14 @@ class Proc(object):
         inner_nodes = list(walk_own(s.body))
         nested = any(isinstance(n, ast.For) for n in inner_nodes) or getattr(self, "_loop_depth", 0) > 0
         if nested:
-            if any(isinstance(n, (ast.Return, ast.Raise)) for n in inner_nodes):
-                raise Untranslatable("return / raise inside nested loops")
-            return self.forloop_fold(s, rest, env, k, xs, xty, lname)
+            raising = any(isinstance(n, ast.Raise) for n in inner_nodes)
+            if any(isinstance(n, ast.Return) for n in inner_nodes) or (raising and self.ret[0] != "Except"):
+                raise Untranslatable("return inside nested loops / raise where the function does not raise")
+            return self.forloop_fold(s, rest, env, k, xs, xty, lname, raising)
         # parameters of the loop function: every variable in scope (by its current lean name / narrowed type)
         scope = sorted(env.vars.items())
         # a variable the loop target shadows is neither carried nor available after the loop (in Python it would hold the last item then, with another type)
-        scope = [(n, l, t) for n, (l, t) in scope if not (isinstance(t, tuple) and t[0] == "Assoc") and n != s.target.id]
+        scope = [(n, l, t) for n, (l, t) in scope if not (isinstance(t, tuple) and t[0] == "Assoc") and n not in (set([s.target.id]) if isinstance(s.target, ast.Name) else set(t.id for t in s.target.elts))]
         assoc = [(n, l, t) for n, (l, t) in sorted(env.vars.items()) if isinstance(t, tuple) and t[0] == "Assoc"]
         if assoc:
             raise Untranslatable("look-up table in scope of a loop")
@@ -985,8 +1174,8 @@ class Proc(object):
             pn = "c_" + n.replace(".", "_")
             inner.vars[n] = (pn, t)
             pnames.append((pn, t))
-        v, tail = "x_" + s.target.id, inner.fresh("rest")
-        body_env = inner.bind(s.target.id, v, xty[1])
+        tail = inner.fresh("rest")
+        v, body_env = self.loop_target(s, xty, inner)
 
         def recurse(en):
             return "%s %s %s" % (lname, " ".join([n for n, _ in self.fixed] + ["%s" % en.vars[n][0] if en.vars[n][1] == t else self.coerce(en.vars[n][0], en.vars[n][1], t) for (n, _, t) in scope]), tail)
@@ -998,27 +1187,34 @@ class Proc(object):
         self.aux.append("def %s%s : %s → %s\n  | [] => %s\n  | %s :: %s => %s\n" % (lname, sig, lty(xty), lty(self.ret), ind(nil_case), v, tail, ind(cons_case)))
         return "%s %s %s" % (lname, " ".join([n for n, _ in self.fixed] + [l for (_, l, _) in scope]), xs)
 
-    def forloop_fold(self, s, rest, env, k, xs, xty, lname):
-        scope = [(n, l, t) for n, (l, t) in sorted(env.vars.items()) if not (isinstance(t, tuple) and t[0] == "Assoc") and n != s.target.id]
+    def forloop_fold(self, s, rest, env, k, xs, xty, lname, raising=False):
+        scope = [(n, l, t) for n, (l, t) in sorted(env.vars.items()) if not (isinstance(t, tuple) and t[0] == "Assoc") and n not in (set([s.target.id]) if isinstance(s.target, ast.Name) else set(t.id for t in s.target.elts))]
         if any(isinstance(t, tuple) and t[0] == "Assoc" for _, (_, t) in env.vars.items()):
             raise Untranslatable("look-up table in scope of a loop")
-        assigned = self.assigns(s.body)
-        carried = [(n, l, t) for (n, l, t) in scope if n in assigned]
-        if not carried:
+        assigned, direct = self.assigns(s.body), self.assigns(s.body, via_args=False)
+        # a variable only HANDED to a call can change only if its value is mutable (a stream, list, set or dictionary): numbers, strings and records are not
+        mutable = lambda t: t == "Stream" or (isinstance(t, tuple) and t[0] in ("List", "Set", "AssocL", "MultiL"))
+        carried = [(n, l, t) for (n, l, t) in scope if n in direct or (n in assigned and mutable(t))]
+        if not carried and not raising:
             raise Untranslatable("a nested loop that changes nothing")
-        rty = carried[0][2] if len(carried) == 1 else ("Prod",) + tuple(t for _, _, t in carried)
+        rty = "Unit" if not carried else carried[0][2] if len(carried) == 1 else ("Prod",) + tuple(t for _, _, t in carried)
+        vty = rty
+        if raising:
+            # a loop whose body may raise: the loop function returns `Except`, the caller goes on (andThen) with the carried variables
+            rty = ("Except", self.ret[1], rty)
         inner = Env(counter=env.counter)
         pnames = []
         for n, l, t in scope:
             pn = "c_" + n.replace(".", "_")
             inner.vars[n] = (pn, t)
             pnames.append((pn, t))
-        v, tail = "x_" + s.target.id, inner.fresh("rest")
-        body_env = inner.bind(s.target.id, v, xty[1])
+        tail = inner.fresh("rest")
+        v, body_env = self.loop_target(s, xty, inner)
 
         def result(en):
             parts = [self.coerce(en.vars[n][0], en.vars[n][1], t) for (n, _, t) in carried]
-            return parts[0] if len(parts) == 1 else "(" + ", ".join(parts) + ")"
+            r = "()" if not parts else parts[0] if len(parts) == 1 else "(" + ", ".join(parts) + ")"
+            return "(.ok %s)" % r if raising else r
 
         def recurse(en):
             return "%s %s %s" % (lname, " ".join([n for n, _ in self.fixed] + [en.vars[n][0] if en.vars[n][1] == t else self.coerce(en.vars[n][0], en.vars[n][1], t) for (n, _, t) in scope]), tail)
@@ -1036,14 +1232,14 @@ class Proc(object):
         call = "(%s %s %s)" % (lname, " ".join([n for n, _ in self.fixed] + [l for (_, l, _) in scope]), xs)
         # the caller goes on with the carried variables
         res = env.fresh("loop")
-        out = "let %s : %s := %s;\n" % (res, lty(rty), call)
+        out = "let %s : %s := %s;\n" % (res, lty(rty), call) if not raising else "(andThen %s fun (%s : %s) =>\n" % (call, res, lty(vty))
         en = env
         for i, (n, l, t) in enumerate(carried):
             nl = env.fresh(n.replace(".", "_"))
             proj = res if len(carried) == 1 else "%s.%s" % (res, ".".join(["2"] * i + (["1"] if i < len(carried) - 1 else [])))
             out += "let %s : %s := %s;\n" % (nl, lty(t), proj)
             en = en.bind(n, nl, t)
-        return out + self.block(rest, en, k)
+        return out + self.block(rest, en, k) + (")" if raising else "")
 
     # -------------------------------------------------------------------------------------------------------------------- main
     def translate(self):
@@ -1107,6 +1303,13 @@ EAM_REC = {"EamRec": {"species": ("species", "Str"), "atomicNumber": ("atomicNum
                       "latticeType": ("latticeType", "Str"), "embeddingFunction": ("embed", ("Rec", "FnRec")), "electronDensityFunction": ("dens", ("Rec", "FnRec"))},
            "FnRec": {}}
 EAM_METHODS = {("FnRec", "__call__"): ("evalFnOV", ["Rat"], "OV"), ("EamRec", "embeddingFunction"): ("embedOf", ["Rat"], "OV")}
+CFG_REC = {"CfgRec": {}}
+CFG_METHODS = {("CfgRec", "has_section"): ("cfgHas", ["Str"], "Bool"), ("CfgRec", "__getitem__"): ("cfgKeys", ["Str"], ("List", "Str")),
+               ("CfgRec", "sections"): ("cfgSections", [], ("List", "Str"))}
+INI_REC = {"IniRec": {"default_section": ("default_section", "Str")}, "OvRec": {"section": ("sect", "Str"), "key": ("key", "Str"), "value": ("value", ("Opt", "Str"))}}
+INI_METHODS = {("IniRec", "has_option"): ("hasOption", ["Str", "Str"], "Bool"), ("IniRec", "has_section"): ("hasSection", ["Str"], "Bool"),
+               ("IniRec", "__getitem__"): ("sectionKeys", ["Str"], ("List", "Str"))}
+INI_MUT = {("IniRec", "remove_option"): ("removeOption", ["Str", "Str"]), ("IniRec", "remove_section"): ("removeSection", ["Str"]), ("IniRec", "add_section"): ("addSection", ["Str"])}
 CALLABLE_REC = {"Callable": {"has_deriv": ("has_deriv", "Bool"), "has_deriv2": ("has_deriv2", "Bool")}}
 
 PROCS = [
@@ -1197,6 +1400,28 @@ PROCS = [
     dict(name="tabeam_density", file="_dlpoly_writeTABEAM.py", func="_writeDensityFunction", writer=True, inout="outfile",
          params=[("speciesA", "Str"), ("speciesB", ("Opt", "Str")), ("electronDensityFunction", ("Rec", "FnRec")), ("nr", "Int"), ("dr", "Rat"), ("outfile", "Stream")], ret="Stream",
          records=EAM_REC, methods=EAM_METHODS),
+    dict(name="tabeam_tabulate_pot", variant=True, file="_dlpoly_writeTABEAM.py", func="_tabulateFunction", writer=True, inout="outputfile",
+         params=[("outputfile", "Stream"), ("func", ("Rec", "PotRec")), ("numpoints", "Int"), ("step", "Rat")], ret="Stream", records=POT_REC,
+         methods={("PotRec", "__call__"): ("energyOf", ["Rat"], "OV")}, locals={"row": ("List", "Tok")}),
+    dict(name="tabeam_pair_potential", file="_dlpoly_writeTABEAM.py", func="_writePairPotential", writer=True, inout="outfile",
+         params=[("pairPotential", ("Rec", "PotRec")), ("nr", "Int"), ("dr", "Rat"), ("outfile", "Stream")], ret="Stream", records=POT_REC, methods=POT_METHODS,
+         closures={"potentialCallable": ("pairPotential", "energy")}),
+    dict(name="tabeam_pair_potentials", file="_dlpoly_writeTABEAM.py", func="_writePairPotentials", writer=True, inout="outfile",
+         params=[("eamPotentials", ("List", ("Rec", "EamRec"))), ("pairPotentials", ("List", ("Rec", "PotRec"))), ("nr", "Int"), ("dr", "Rat"), ("outfile", "Stream")], ret="Stream",
+         records=dict(EAM_REC, **POT_REC), methods=POT_METHODS, zero_defs=["nullfunc"], rec_constructors={"Potential": ("PotRec", ["Str", "Str", "ZeroDef"])},
+         locals={"pairs": ("Set", ("List", "Str")), "pairPotDict": ("AssocL", ("List", "Str"), ("Rec", "PotRec")), "k": ("List", "Str")}),
+    dict(name="tabeam_title", file="_dlpoly_writeTABEAM.py", func="_writeTitle", writer=True, inout="out",
+         params=[("title", "Str"), ("out", "Stream")], ret="Stream", locals={"title": "Tok"}),
+    dict(name="tabeam_except_density", file="_dlpoly_writeTABEAM.py", func="_writeTABEAM_exceptDensity", writer=True, inout="outputbuilder",
+         params=[("nrho", "Int"), ("drho", "Rat"), ("nr", "Int"), ("dr", "Rat"), ("eamPotentials", ("List", ("Rec", "EamRec"))), ("pairPotentials", ("List", ("Rec", "PotRec"))),
+                 ("title", "Str"), ("numpots", "Rat"), ("outputbuilder", "Stream")], ret="Stream", records=dict(EAM_REC, **POT_REC), methods=EAM_METHODS),
+    dict(name="tabeam_write", file="_dlpoly_writeTABEAM.py", func="writeTABEAM", writer=True, inout="out",
+         params=[("nrho", "Int"), ("drho", "Rat"), ("nr", "Int"), ("dr", "Rat"), ("eampots", ("List", ("Rec", "EamRec"))), ("pairpots", ("List", ("Rec", "PotRec"))),
+                 ("out", "Stream"), ("title", "Str")], ret="Stream", records=dict(EAM_REC, **POT_REC), methods=EAM_METHODS, locals={"numpots": "Rat"}),
+    dict(name="tabeam_write_fs", file="_dlpoly_writeTABEAM.py", func="writeTABEAMFinnisSinclair", writer=True, inout="out",
+         params=[("nrho", "Int"), ("drho", "Rat"), ("nr", "Int"), ("dr", "Rat"), ("eampots", ("List", ("Rec", "EamRec"))), ("pairpots", ("List", ("Rec", "PotRec"))),
+                 ("out", "Stream"), ("title", "Str")], ret=("Except", "WErr", "Stream"), records=dict(EAM_REC, **POT_REC), methods=EAM_METHODS, locals={"numpots": "Rat"},
+         try_subscripts={("EamRec", "electronDensityFunction"): ("densOfOpt", "Str", ("Rec", "FnRec"))}, raises=[("Density function for", "WErr.missingDensity")]),
     # ---- C13: species filter
     dict(name="check_tuple", file="config/_filtered_config_parser.py", func="FilteredConfigParser._check_tuple",
          params=[("self._self_species_list", ("List", "Str")), ("self._self_exclude_flag", "Bool"), ("check_tuple", ("List", "Str"))], ret="Bool"),
@@ -1229,6 +1454,32 @@ PROCS = [
          locals={"nr": ("Opt", "Int"), "cutoff": ("Opt", "Rat")}),
     dict(name="rows_for_step", file="config/_config_parser.py", func="_TabulationCutoff._rows_for_step",
          params=[("cutoff", "Float"), ("dr", "Float")], ret="Int", float="Float"),
+    # ---- C16 / C20: pair keys and duplicate detection
+    dict(name="pair_species_func", file="config/_config_parser.py", func="ConfigParser._pair_species_func",
+         params=[("k", "Str")], ret=("Except", "CfgErr", ("Prod", "Str", "Str")), implicit=[("strip", ("Fun", ["Str"], "Str"))],
+         methods={("Str", "strip"): ("strip", [], "Str")}, constructors={"SpeciesTuple": ("Prod", "Str", "Str")}, unpack_error="CfgErr.unpack",
+         raises=[("keys should be of the form 'SPECIES_A-SPECIES_B'\"", "CfgErr.notTwoParts"), ("a species label is missing", "CfgErr.blankSpecies")]),
+    dict(name="dup_pairs", file="config/_config_parser.py", func="ConfigParser._check_for_duplicate_pairs",
+         params=[("self._config_parser", ("Rec", "CfgRec"))], ret=("Except", "CfgErr", "Unit"), implicit=[("strip", ("Fun", ["Str"], "Str"))],
+         records=CFG_REC, methods=CFG_METHODS, raises=[("Multiple entries for the pair", "CfgErr.duplicatePair")],
+         locals={"seen": ("Set", ("Prod", "Str", "Str"))}),
+    dict(name="dup_table_forms", file="config/_config_parser.py", func="_TableFormSection.check_for_duplicate_table_forms",
+         params=[("cfg_parser", ("Rec", "CfgRec"))], ret=("Except", "CfgErr", "Unit"),
+         implicit=[("isRelevant", ("Fun", ["Str"], "Bool")), ("parseName", ("Fun", ["Str"], "Str"))],
+         ops={"is_relevant_section": ("isRelevant", ["Str"], "Bool"), "_parse_name": ("parseName", ["Str"], "Str")},
+         records=CFG_REC, methods=CFG_METHODS, raises=[("Duplicate '{}' sections found", "CfgErr.duplicateTableForm")],
+         locals={"seen": ("MultiL", "Str", "Str")}),
+    # ---- C14: overrides / additions / removals
+    dict(name="apply_overrides", file="config/_config_parser.py", func="ConfigParser._init_config_parser", sig_from_locals=True,
+         skip_assign_from=["_RawConfigParser"], skip_stmts=["try:", "# Resolve every"],
+         params=[("cp", ("Rec", "IniRec")), ("overrides", ("List", ("Rec", "OvRec"))), ("additional", ("List", ("Rec", "OvRec")))],
+         ret=("Except", "OvErr", ("Rec", "IniRec")), records=INI_REC, methods=INI_METHODS, mut_methods=INI_MUT,
+         implicit=[("hasOption", ("Fun", [("Rec", "IniRec"), "Str", "Str"], "Bool")), ("hasSection", ("Fun", [("Rec", "IniRec"), "Str"], "Bool")),
+                   ("sectionKeys", ("Fun", [("Rec", "IniRec"), "Str"], ("List", "Str"))), ("removeOption", ("Fun", [("Rec", "IniRec"), "Str", "Str"], ("Rec", "IniRec"))),
+                   ("removeSection", ("Fun", [("Rec", "IniRec"), "Str"], ("Rec", "IniRec"))), ("addSection", ("Fun", [("Rec", "IniRec"), "Str"], ("Rec", "IniRec"))),
+                   ("setValue", ("Fun", [("Rec", "IniRec"), ("Rec", "OvRec")], ("Except", "OvErr", ("Rec", "IniRec"))))],
+         ops={"_set_value": ("setValue", [("Rec", "IniRec"), ("Rec", "OvRec")], ("Except", "OvErr", ("Rec", "IniRec")))}, inout_calls={"_set_value": 0},
+         raises=[("not found in configuration file when processing overrides", "OvErr.missing"), ("already exists in configuration file whilst adding", "OvErr.exists")]),
     # ---- C16: target synonyms
     dict(name="init_target", file="config/_config_parser.py", func="_TabulationSection._init_target",
          params=[("target", ("Opt", "Str"))], class_dicts=["_target_synonyms"], skip_assign_from=["_get_or_none"], sig_from_locals=True,
@@ -1240,6 +1491,7 @@ TABLES = [
 ]
 
 PRELUDE = """import AtsimModel.Model.Basic
+import AtsimModel.Model.Ini
 /-! GENERATED by translator/py2lean_logic.py from /repo's current source - do not edit.
     Decision logic of the library as ordinary Lean definitions, one per Python function (see the translator's docstring for the
     fragment and for how None / truthiness / short-circuit evaluation / loops with early return / raise are made explicit). -/
@@ -1315,6 +1567,8 @@ structure EamRec where
   densFS : List (String × FnRec)
 deriving Repr, Inhabited
 
+/-- `pot.electronDensityFunction[species]` inside `try: … except KeyError`: the look-up as it is, absent keys included -/
+def densOfOpt (p : EamRec) (sp : String) : Option FnRec := (p.densFS.reverse.find? fun e => e.1 == sp).map (·.2)
 def evalFnOV (f : FnRec) (x : Rat) : OV := .fn "value" f.fid x
 def embedOf (p : EamRec) (x : Rat) : OV := .fn "value" p.embed.fid x
 /-- `pot.electronDensityFunction[species]` (a missing key is a `KeyError` in Python; the builder zero-fills, so the writers never meet one: the look-up is total here with an inert default) -/
@@ -1349,13 +1603,62 @@ inductive TableErr where
 deriving DecidableEq, Repr
 
 inductive WErr where
-  | notMultipleOfFour
+  | notMultipleOfFour | missingDensity
 deriving DecidableEq, Repr
 
 /-- the configuration errors raised by the translated functions, identified by their message -/
 inductive LogicErr where
   | allThree | stepAlone | nonPositive | tooFewRows
 deriving DecidableEq, Repr
+
+/-- the raw parser's content as `_init_config_parser` handles it: opaque here (every access is an operation handed to the translated function), except for the
+    name of its default section -/
+structure IniRec where
+  state : Atsim.Ini
+  default_section : String
+deriving Repr
+
+/-- a `ConfigParserOverrideTuple`; `value = None` asks for removal -/
+structure OvRec where
+  sect : String
+  key : String
+  value : Option String
+deriving Repr, DecidableEq
+
+inductive OvErr where
+  | missing | exists | badValue
+deriving DecidableEq, Repr
+
+/-- configuration errors of the key / duplicate checks, identified by their message (`unpack`: Python's own ValueError of `a, b = xs`) -/
+inductive CfgErr where
+  | notTwoParts | blankSpecies | unpack | duplicatePair | duplicateTableForm
+deriving DecidableEq, Repr
+
+/-- a parsed configuration as the duplicate checks see it: section names in file order, each with its keys in file order -/
+structure CfgRec where
+  sections : List (String × List String)
+deriving DecidableEq, Repr
+
+def cfgHas (c : CfgRec) (s : String) : Bool := c.sections.any fun e => e.1 == s
+/-- iterating `cfg[section]`: the keys of that section -/
+def cfgKeys (c : CfgRec) (s : String) : List String := ((c.sections.find? fun e => e.1 == s).map (·.2)).getD []
+def cfgSections (c : CfgRec) : List String := c.sections.map (·.1)
+
+/-- `s.add(x)` -/
+def setAdd {α : Type} [BEq α] (s : List α) (x : α) : List α := if s.contains x then s else s ++ [x]
+
+/-- `d.setdefault(k, []).append(v)`: dictionaries keep the order in which keys were first inserted -/
+def multiAppend {κ β : Type} [BEq κ] (d : List (κ × List β)) (k : κ) (v : β) : List (κ × List β) :=
+  if d.any (fun e => e.1 == k) then d.map (fun e => if e.1 == k then (e.1, e.2 ++ [v]) else e) else d ++ [(k, [v])]
+
+/-- `s.split(c)` for a one-character separator: the pieces between occurrences (always at least one piece) -/
+def splitChars (c : Char) : List Char → List (List Char)
+  | [] => [[]]
+  | x :: rest => if x == c then [] :: splitChars c rest else
+      match splitChars c rest with
+      | [] => [[x]]
+      | p :: ps => (x :: p) :: ps
+def pySplit1 (s : String) (c : Char) : List String := (splitChars c s.toList).map String.ofList
 
 /-- stable insertion: `x` goes after every element `y` with `le y x` -/
 def insertBy {α : Type} (le : α → α → Bool) (x : α) : List α → List α
@@ -1412,6 +1715,8 @@ def prepare(spec, src, tree):
             continue
         if isinstance(st, ast.Expr) and isinstance(st.value, ast.Call) and ast.unparse(st.value.func) in spec.get("skip_calls", []):
             continue
+        if any((ast.get_source_segment(src, st) or "").replace(" ", "").startswith(pref.replace(" ", "")) for pref in spec.get("skip_stmts", [])):
+            continue          # a statement the spec declares as outside the translated fragment (modelled by hand, named in DESIGN.md)
         if isinstance(st, ast.Assign) and isinstance(st.value, ast.Call):
             f = st.value.func
             nm = f.id if isinstance(f, ast.Name) else (f.attr if isinstance(f, ast.Attribute) else None)
@@ -1481,7 +1786,11 @@ def gen_logic(repo, outdir, summary, write_if_changed):
     cache = {}
     procs = {}
     for spec in PROCS:
-        procs[(spec["file"], spec["func"].rsplit(".", 1)[-1])] = spec      # calls are resolved within the same source file
+        key = (spec["file"], spec["func"].rsplit(".", 1)[-1])              # calls are resolved within the same source file
+        if spec.get("variant"):
+            procs[key].setdefault("variants", []).append(spec)            # the same function translated for another type of argument: chosen by the argument types
+        else:
+            procs[key] = spec
     for spec in PROCS:
         try:
             fp = os.path.join(repo, "atsim/potentials", spec["file"])
